@@ -79,6 +79,10 @@ def motif_spec(name):
         "diamond": dict(sizes=[4], builds=[diamond_motif], names=["diamond"]),
         "star3k2": dict(sizes=[3, 2], builds=[star_motif, clique_motif], names=["star", "2-clique"]),
         "one": dict(sizes=[1, 2], builds=[lambda vs: [], clique_motif], names=["nothing", "2-clique"]),
+        # two topologies whose motifs have the same number of edges but different names
+        "k3c3": dict(sizes=[3, 3], builds=[clique_motif, cycle_motif], names=["3-clique", "3-cycle"]),
+        "k2k2": dict(sizes=[2, 2], builds=[clique_motif, clique_motif], names=["2-clique-red", "2-clique-blue"]),
+        "k2k3k2": dict(sizes=[2, 3, 2], builds=[clique_motif, clique_motif, clique_motif], names=["a", "b", "c"]),
     }
     C = {
         "bare": dict(sizes=[2], indices=[[0]], builds=[bare_edge], names=[bare_edge_name]),
@@ -89,6 +93,14 @@ def motif_spec(name):
         "bare+hub2": dict(sizes=[2, 1, 2], indices=[[0], [1, 2]], builds=[bare_edge, hub2], names=[bare_edge_name, hub2_names]),
         "diamond5": dict(sizes=[2, 2], indices=[[0, 1]], builds=[diamond5], names=[diamond5_names]),
         "edge1": dict(sizes=[2], indices=[[0]], builds=[single_edge_list], names=[single_edge_list_names]),
+        # bare edge whose naming callback returns the per-edge form (one name in a tuple)
+        "bare-t": dict(sizes=[2], indices=[[0]], builds=[bare_edge], names=[lambda: ("2-clique",)]),
+        # a multi-orbit motif FOLLOWED by another motif (motif position != orbit index)
+        "hub2+tri": dict(sizes=[1, 2, 3], indices=[[0, 1], [2]], builds=[hub2, tri], names=[hub2_names, tri_names]),
+        "hub2+bare": dict(sizes=[1, 2, 2], indices=[[0, 1], [2]], builds=[hub2, bare_edge], names=[hub2_names, bare_edge_name]),
+        "tri+tri2": dict(sizes=[3, 3], indices=[[0], [1]], builds=[tri, tri], names=[tri_names, lambda: ("t2", "t2", "t2")]),
+        # orbits listed out of order: motif 0 uses columns 2 and 0
+        "hub2-rev+bare": dict(sizes=[2, 2, 1], indices=[[2, 0], [1]], builds=[hub2, bare_edge], names=[hub2_names, bare_edge_name]),
     }
     if name in F:
         d = dict(F[name])
@@ -107,11 +119,11 @@ class Run:
     pass
 
 
-def sym_jds(ctx, cfg, spec):
+def sym_jds(ctx, cfg, spec, tag=""):
     """symbolic joint degree sequence with the handshake precondition as a solver constraint"""
     N, D = cfg["N"], cfg["D"]
     K = len(spec["sizes"])
-    d = [[ctx.int(f"d{v}_{k}", 0, D) for k in range(K)] for v in range(N)]
+    d = [[ctx.int(f"d{tag}{v}_{k}", 0, D) for k in range(K)] for v in range(N)]
     col = []
     for k in range(K):
         s = 0
@@ -179,6 +191,19 @@ def run_generator(ctx, cfg):
     r.jds = sym_jds(ctx, cfg, spec)
     r.jds_in = list(r.jds)
     r.out = gen.random_clustered_graph(r.jds)
+    if cfg.get("history"):
+        # a second call on the SAME generator object with an independent symbolic sequence: everything recorded is reset
+        # so that the obligations are stated about the second call only
+        first_d = [[ctx.fork_int(x) for x in row] for row in r.jds_in]
+        n_rng = len(ctx.rng_log)
+        r.calls.clear()
+        r.name_calls.clear()
+        cfg2 = dict(cfg)
+        r.jds = sym_jds(ctx, cfg2, spec, tag="b")
+        r.jds_in = list(r.jds)
+        r.out = gen.random_clustered_graph(r.jds)
+        r.first_d = first_d
+        del ctx.rng_log[:n_rng]
     r.N = cfg["N"]
     r.d = [[ctx.fork_int(x) for x in row] for row in r.jds_in]  # concrete by now (forked at itertools.repeat)
     r.shuffles = [c for c in ctx.rng_log if c["fn"] in ("shuffle", "sample")]
